@@ -191,6 +191,18 @@ static int fileAdvance(MPT_INTERFACE(iterator) *it)
 			break;
 		}
 	}
+	/* only whitespace up to the end of file: no further element */
+	while (1) {
+		int ret;
+		if ((ret = fgetc(d->fd)) < 0) {
+			d->type = ret;
+			return 0;
+		}
+		if (!isspace(ret)) {
+			ungetc(ret, d->fd);
+			break;
+		}
+	}
 	++d->count;
 	d->type = 0;
 	return MPT_ENUM(TypeFilePtr);
